@@ -323,6 +323,16 @@ def confirm(ob: Dict[str, Any]) -> Tuple[Optional[Dict[str, Any]], str]:
             return {"call": job, "real": r, "expected": rp.get("expect"), "found_by": "concrete representative"}, \
                 f"{rp['target']} returned {r} where {rp.get('expect')!r} is required"
         return None, "the un-instrumented function returns the expected value on this input"
+    if rp.get("kind") == "line":
+        # a concrete listing line against the independent decoder (instruction lines) / "no instruction, no failure" (other lines)
+        from oracle import objdump_model as OM_
+        r = run_real({"kind": "parse", "lines": [rp["line"]]})["lines"][0]
+        exp = OM_.decode_line(rp["line"]) if rp.get("instruction", True) else None
+        bad = "error" in r or (exp is not None and r.get("inst") != [exp[0], exp[1], exp[2]]) or (exp is None and "inst" in r)
+        if bad:
+            return {"line": rp["line"], "real": r, "expected": list(exp) if exp else "no instruction, no failure", "found_by": "concrete line"}, \
+                "the un-instrumented parser disagrees with the reference decoder on this line"
+        return None, "the un-instrumented parser agrees with the reference decoder on this line"
     if rp.get("kind") not in ("operator", "mnemonic", "operand", "deref"):
         return None, "no concretiser for this obligation kind"
     if ob.get("detail", "").startswith("counter-model"):
